@@ -41,6 +41,8 @@ def main():
         return t[0]
     for i, bits in enumerate((1024, 1024, 2048, 2048, 2048, 3072)):
         pool.append(ent('rsa%d-%d' % (bits, i), 1, rsa.generate_private_key(65537, bits), nt()))
+    # (added later, appended to the committed pool: moduli whose length is not a multiple of 8 bits)
+    #   pool.append(ent('rsa1031-0', 1, rsa.generate_private_key(65537, 1031), ...)); pool.append(ent('rsa2041-0', 1, rsa.generate_private_key(65537, 2041), ...))
     for i, bits in enumerate((1024, 2048, 2048)):
         pool.append(ent('dsa%d-%d' % (bits, i), 17, dsa.generate_private_key(bits), nt()))
     for name, cls in (('p256', ec.SECP256R1), ('p384', ec.SECP384R1), ('p521', ec.SECP521R1), ('k256', ec.SECP256K1)):
